@@ -548,9 +548,6 @@ def ofFwdForest : Fwd.Forest → Forest
 
 end Mode
 
-/-- what a python-action stores about its output: with capture the captured text, without `None` -/
-def pyStored (capture : Bool) (text : List Char) : Option (List Char) := if capture then some text else none
-
 /-- a stream operation every stream the callable may see supports in the same way (the `Writer` interface
     without `fileno`) -/
 def StreamOp.common : StreamOp → Bool
